@@ -99,13 +99,24 @@ func frames(stack string) []string {
 // the engine's p2p package with a MessageProtocol method on the stack; "select" = it is an outstanding caller of this case
 // parked in the select (or a channel receive) of sendRequestMessage itself. mine tells whether the goroutine belongs to
 // the cluster of this case (receiver pointer of a MessageProtocol frame, or a caller goroutine of this case).
-func blockedRule(g gInfo, mps []string, callers map[int64]bool) (rule string) {
+//
+// Broadcast (bcast_test.go): "bcast" = an outstanding Broadcast caller of this case whose innermost frame outside
+// runtime/sync is MessageProtocol.Broadcast itself - it is not inside one of its per-peer requests, it waits for something
+// of its own (blockedEvidence drops it while a goroutine started by that call is still inside request()); "bchild" = a
+// goroutine started by a Broadcast call of this case that is parked in Broadcast's own code (not inside request()).
+func blockedRule(g gInfo, mps []string, callers, bcallers map[int64]bool) (rule string) {
 	if !strings.Contains(g.Stack, mpFrame) {
 		return ""
 	}
 	fr := frames(g.Stack)
 	if len(fr) == 0 {
 		return ""
+	}
+	if bcallers[g.ID] && strings.Contains(innermostOwn(fr), mpFrame+"Broadcast(") {
+		return "bcast"
+	}
+	if p := bcastParent(g.Stack); p >= 0 && bcallers[p] && strings.Contains(innermostOwn(fr), mpFrame+"Broadcast.func") {
+		return "bchild"
 	}
 	mine := callers[g.ID]
 	if !mine {
@@ -146,6 +157,8 @@ func blockedRule(g gInfo, mps []string, callers map[int64]bool) (rule string) {
 
 type blockEv struct {
 	lock, sel []gInfo
+	bcast     []gInfo // Broadcast callers parked in Broadcast itself, none of their per-peer requests running
+	bchild    []gInfo // goroutines started by those calls, parked in Broadcast's own code
 	span      time.Duration
 	beats     int64
 	idle      time.Duration
@@ -178,6 +191,7 @@ func (cs *caseState) callerGids() map[int64]bool {
 func (cs *caseState) blockedEvidence() *blockEv {
 	mps := cs.mpPointers()
 	callers := cs.callerGids()
+	bcallers := cs.bcastCallerGids()
 	last0 := cs.last.Load()
 	idle := time.Since(time.Unix(0, last0))
 	idleBeats := hbBeats.Load() - cs.lastBeat.Load()
@@ -202,11 +216,12 @@ func (cs *caseState) blockedEvidence() *blockEv {
 		}
 		now := map[key]gInfo{}
 		knownParkedMu.Lock()
-		for _, g := range dumpGoroutines() {
+		dump := dumpGoroutines()
+		for _, g := range dump {
 			if knownParked[g.ID] {
 				continue
 			}
-			if r := blockedRule(g, mps, callers); r != "" {
+			if r := blockedRule(g, mps, callers, bcallers); r != "" {
 				k := key{g.ID, r}
 				if keep == nil {
 					now[k] = g
@@ -216,6 +231,13 @@ func (cs *caseState) blockedEvidence() *blockEv {
 			}
 		}
 		knownParkedMu.Unlock()
+		// A Broadcast that waits for per-peer requests which are still running (an engine may run them on goroutines
+		// of their own) waits legitimately: no evidence from that caller in this round.
+		for _, g := range dump {
+			if p := bcastParent(g.Stack); p >= 0 && strings.Contains(g.Stack, mpFrame+"request(") {
+				delete(now, key{p, "bcast"})
+			}
+		}
 		keep = now
 		if len(keep) == 0 {
 			return nil
@@ -228,11 +250,19 @@ func (cs *caseState) blockedEvidence() *blockEv {
 	}
 	sort.Slice(ks, func(i, j int) bool { return ks[i].id < ks[j].id })
 	for _, k := range ks {
-		if k.rule == "lock" {
+		switch k.rule {
+		case "lock":
 			ev.lock = append(ev.lock, keep[k])
-		} else {
+		case "bcast":
+			ev.bcast = append(ev.bcast, keep[k])
+		case "bchild":
+			ev.bchild = append(ev.bchild, keep[k])
+		default:
 			ev.sel = append(ev.sel, keep[k])
 		}
+	}
+	if len(ev.lock)+len(ev.sel)+len(ev.bcast) == 0 {
+		return nil // goroutines started by a Broadcast are evidence only together with their caller (or after it returned: bcastLeftovers)
 	}
 	return ev
 }
@@ -252,7 +282,13 @@ func (cs *caseState) classifyBlocked(v *verdict, ev *blockEv) {
 	cs.cl.wedged = true
 	markParked(ev.lock)
 	markParked(ev.sel)
+	markParked(ev.bcast)
+	markParked(ev.bchild)
 	out := int(cs.inCalls.Load())
+	if len(ev.bcast) > 0 {
+		cs.classifyBcastBlocked(v, ev, out)
+		return
+	}
 	if len(ev.lock) > 0 {
 		var reg, clean, resp, other int
 		for _, g := range ev.lock {
@@ -366,7 +402,7 @@ func (cs *caseState) probeLiveness(v *verdict) {
 		return
 	}
 	cs.T = probeTimeout * time.Millisecond
-	n := cs.w.NConn
+	n := len(cs.probes) // probe pairs (requester, responder); storm: every node asks its neighbour
 	base := len(cs.w.Calls)
 	todo := make([]int, 0, n)
 	for i := 0; i < n; i++ {
@@ -409,7 +445,7 @@ func (cs *caseState) probeLiveness(v *verdict) {
 		if v.starvedPr {
 			v.incon = append(v.incon, fmt.Sprintf("case %d: liveness probe failed 3 times (%v) while a process heartbeat was late: not a verdict", cs.no, v.probeBad))
 		} else {
-			v.add(sigProbe, "after the storm (all %d calls returned) a fresh request with a handler that answers at once and a response timeout of %d ms failed 3 times in a row, no late process heartbeat meanwhile: %v",
+			v.add(sigProbe, "after the storm / the broadcasts (all %d calls returned) a fresh request with a handler that answers at once and a response timeout of %d ms failed 3 times in a row, no late process heartbeat meanwhile: %v",
 				len(cs.w.Calls), probeTimeout, v.probeBad)
 		}
 	}
